@@ -179,49 +179,58 @@ class RefDisplay(VideoPlugin):
             self.tags[r - 1] = ['clear_rows'] * self.mode[3]
 
     def scroll(self, direction, from_line, scroll_height, back_attr):
-        """Scroll text rows from_line..scroll_height (1-based, inclusive) by one; -1 is up."""
+        """
+        Scroll text rows from_line..scroll_height (1-based, inclusive) by one; -1 is up.
+        Literal slice semantics of the SDL2 front end (an empty or inverted range moves nothing but
+        still blanks the 'vacated' row), and of the text front ends for the text grid.
+        """
         if self.mode is None:
             self._anomaly('scroll before set_mode')
             return
         if from_line < 1 or scroll_height > self.mode[2] or scroll_height < from_line:
             self._anomaly('scroll out of range: %r..%r' % (from_line, scroll_height))
-            from_line = max(1, from_line)
-            scroll_height = min(self.mode[2], scroll_height)
-            if scroll_height < from_line:
-                return
         fh = self.font_height
         width = self.mode[1]
-        hi_y0, hi_y1 = (from_line - 1) * fh, (scroll_height - 1) * fh
-        lo_y0, lo_y1 = from_line * fh, scroll_height * fh
-        lo_y1 = min(lo_y1, len(self.canvas))
+        nrows, ncols = self.mode[2], self.mode[3]
+        canvas = self.canvas
+        n = len(canvas)
+
+        def rng_(a, z):
+            # indices of the python slice a:z on the canvas
+            return range(*slice(a, z).indices(n))
+
+        hi = rng_((from_line - 1) * fh, (scroll_height - 1) * fh)
+        lo = rng_(from_line * fh, scroll_height * fh)
         blank = bytearray([back_attr & 0xff]) * width
+        a, b = from_line - 1, scroll_height - 1      # 0-based text rows
         if direction == -1:
-            moved = [bytearray(r) for r in self.canvas[lo_y0:lo_y1]]
-            self.canvas[hi_y0:hi_y0 + len(moved)] = moved
-            for y in range(hi_y1, lo_y1):
-                self.canvas[y] = bytearray(blank)
-            # text rows
-            a, b = from_line - 1, scroll_height - 1
-            self.text[a:b] = self.text[a + 1:b + 1]
-            self.attrs[a:b] = self.attrs[a + 1:b + 1]
-            self.tags[a:b] = [self._moved(t, 'moved-by-scroll') for t in self.tags[a + 1:b + 1]]
-            self.text[b] = [u' '] * self.mode[3]
-            self.attrs[b] = [back_attr] * self.mode[3]
-            self.tags[b] = ['scroll-up-vacated'] * self.mode[3]
+            moved = [bytearray(canvas[y]) for y in lo]
+            for y, row in zip(hi, moved):
+                canvas[y] = row
+            for y in rng_((scroll_height - 1) * fh, scroll_height * fh):
+                canvas[y] = bytearray(blank)
+            if 0 <= a < b < nrows:
+                self.text[a:b] = self.text[a + 1:b + 1]
+                self.attrs[a:b] = self.attrs[a + 1:b + 1]
+                self.tags[a:b] = [self._moved(t, 'moved-by-scroll') for t in self.tags[a + 1:b + 1]]
+            vac = b
+            tag = 'scroll-up-vacated'
         else:
-            # rows that fit (the last text row may be cut short by the canvas height)
-            moved = [bytearray(r) for r in self.canvas[hi_y0:hi_y1]]
-            moved = moved[:max(0, len(self.canvas) - lo_y0)]
-            self.canvas[lo_y0:lo_y0 + len(moved)] = moved
-            for y in range(hi_y0, min(lo_y0, len(self.canvas))):
-                self.canvas[y] = bytearray(blank)
-            a, b = from_line - 1, scroll_height - 1
-            self.text[a + 1:b + 1] = self.text[a:b]
-            self.attrs[a + 1:b + 1] = self.attrs[a:b]
-            self.tags[a + 1:b + 1] = [self._moved(t, 'moved-by-scroll') for t in self.tags[a:b]]
-            self.text[a] = [u' '] * self.mode[3]
-            self.attrs[a] = [back_attr] * self.mode[3]
-            self.tags[a] = ['scroll-down-vacated'] * self.mode[3]
+            moved = [bytearray(canvas[y]) for y in hi]
+            for y, row in zip(lo, moved):
+                canvas[y] = row
+            for y in rng_((from_line - 1) * fh, from_line * fh):
+                canvas[y] = bytearray(blank)
+            if 0 <= a < b < nrows:
+                self.text[a + 1:b + 1] = self.text[a:b]
+                self.attrs[a + 1:b + 1] = self.attrs[a:b]
+                self.tags[a + 1:b + 1] = [self._moved(t, 'moved-by-scroll') for t in self.tags[a:b]]
+            vac = a
+            tag = 'scroll-down-vacated'
+        if 0 <= vac < nrows:
+            self.text[vac] = [u' '] * ncols
+            self.attrs[vac] = [back_attr] * ncols
+            self.tags[vac] = [tag] * ncols
 
     def update(self, row, col, unicode_matrix, attr_matrix, y0, x0, sprite):
         """Put text and pixels at a given position."""
